@@ -448,6 +448,34 @@ Proof.
   - repeat constructor; unfold is_load; cbn; intros; try discriminate; lia.
 Qed.
 
+Definition ex_sd_layout : sd_layout :=
+  {| sl_kind := SdSingle; sl_block_size := 256; sl_version := 1; sl_max_mapnr := 9;
+     sl_cpu_size := 1024; sl_lma := [false; true]; sl_sub_blocks := 9; sl_bitmap_blocks := 1;
+     sl_dumpable_blocks := 1; sl_mem_bits := [true]; sl_ids := repeat 5 48;
+     sl_vol_ids := [repeat 6 16]; sl_disk_pages := []; sl_set_hdr_blocks := 1; sl_magic0 := 0 |}.
+Definition ex_sd_img : image := [None; Some (ex_page 4); None; Some (ex_page 5)].
+
+Example C01_nonvacuous_sadump : sd_wf ex_sd_layout ex_sd_img.
+Proof.
+  assert (Hp : forall b, len (ex_page b) = 4096)
+    by (intro b; unfold ex_page; rewrite len_app, len_repeat; reflexivity).
+  constructor.
+  - reflexivity.
+  - exists 8. split; [split; discriminate | reflexivity].
+  - discriminate.
+  - split; [discriminate | reflexivity].
+  - split; [discriminate | reflexivity].
+  - split; [discriminate | reflexivity].
+  - split; [vm_compute; discriminate | reflexivity].
+  - split; reflexivity.
+  - split; vm_compute; discriminate.
+  - constructor; [exact I |]. constructor; [apply Hp |]. constructor; [exact I |]. constructor; [apply Hp | constructor].
+  - reflexivity.
+  - reflexivity.
+  - split; [reflexivity | vm_compute; discriminate].
+  - vm_compute. reflexivity.
+Qed.
+
 Example C01_nonvacuous_rle :
   uncompress_rle (rle_encode [1; 0; 0; 0; 7; 7; 7; 7; 7; 2]) 10 = Some [1; 0; 0; 0; 7; 7; 7; 7; 7; 2]
   /\ rle_encode [1; 0; 0; 0; 7; 7; 7; 7; 7; 2] = [1; 0; 3; 0; 0; 5; 7; 2].
